@@ -2169,6 +2169,8 @@ func vfExhaustive(out *zzverif.Out, depth int, configs []vfConfig) {
 				{f(vfTok{0, L0, nextID}, vfTok{0, L0 + 1, nextID + 1}), [2]int32{L0 + 2, L1}, 2},
 				{vfOp{kind: 'R', a: 0, b: 0, c: math.MaxInt32}, [2]int32{0, L1}, 0},
 				{vfOp{kind: 'R', a: 1, b: 0, c: math.MaxInt32}, [2]int32{L0, 0}, 0},
+				// reserve pass shaped like the next batch of sequence 0
+				{vfOp{kind: 'V', toks: []vfTok{{0, L0, 0}, {0, L0 + 1, 0}}}, [2]int32{L0, L1}, 0},
 			}
 			if L0 >= 1 {
 				alts = append(alts,
